@@ -82,6 +82,10 @@ class Variable:
         data_mask: pd.DataFrame
             The data frame where variables are taken from
         """
+        if self.reference is not None and not self.is_response:
+            raise ValueError(
+                f"Subset notation '{self.name}[{self.reference}]' is only allowed for the response."
+            )
         x = data_mask[self.name]
         if is_numeric_dtype(x):
             self.kind = "numeric"
